@@ -207,6 +207,56 @@ class SimE(Simulator):
         ops.append(["end_stop"])
         return {"cfg": {"recovery": False, "runlog_every": 4, "wellformed": True}, "method": method, "ops": ops}
 
+    # -- profile: edits of macro definitions that have / have not been called yet (C41)
+    def _gen_macroedit(self, rng: random.Random, tier: str) -> dict:
+        names = ["MA", "MB", "MC", "MD"][:rng.randint(1, 4)]
+        u = [0]
+
+        def mk():
+            u[0] += 1
+            return f"Mark: q{u[0]}"
+        defs = {}
+        for nm in names:
+            body = [mk() for _ in range(rng.randint(1, 3))]
+            if rng.random() < 0.3:
+                body.insert(rng.randint(0, len(body)), f"Wait: {rng.choice([0.2, 0.4])}s")
+            if rng.random() < 0.2:
+                body.append(rng.choice(["Set3: %d" % (900 + u[0]), "Ramp: 2"]))
+            defs[nm] = [f"Macro: {nm}"] + ["    " + b for b in body]
+        main: list[list[str]] = []
+        order = names[:]
+        rng.shuffle(order)
+        # all definitions first (in drawn order), or each definition right before its first use
+        upfront = rng.random() < 0.6
+        if upfront:
+            for nm in order:
+                main.append(defs[nm])
+        called = [rng.choice(names) for _ in range(rng.randint(1, 5))]
+        defined = set(names) if upfront else set()
+        for nm in called:
+            if nm not in defined:
+                main.append(defs[nm])
+                defined.add(nm)
+            main.append([mk()] if rng.random() < 0.6 else [f"Wait: {rng.choice([0.2, 0.5, 1.0])}s"])
+            main.append([f"Call macro: {nm}"])
+        for nm in names:
+            if nm not in defined:
+                main.append(defs[nm])
+        main.append([f"Wait: {rng.choice([0.5, 1.0, 2.0])}s", mk()])
+        flat = [ln for grp in main for ln in grp]
+        method = [[f"L{i:03d}", ln] for i, ln in enumerate(flat)]
+        ops: list[list] = [["user", "Start"]]
+        uniq = 800
+        for _ in range(rng.randint(1, 2)):
+            ops.append(["tick", rng.choice([2, 3, 4, 5, 6, 8, 10, 13, 17, 22, 30]), 0.1])
+            uniq += 10
+            kind = rng.choice(["macro_add", "macro_add", "macro_change", "macro_remove"])
+            ops.append(["edit", kind, rng.randint(0, 50), f"Mark: e{uniq}"])
+        ops.append(["tick", rng.choice([3, 10, 30]), 0.1])
+        ops.append(["settle", 200])
+        ops.append(["end_stop"])
+        return {"cfg": {"recovery": False, "runlog_every": 4, "wellformed": True}, "method": method, "ops": ops}
+
     # -- profile: injections around pauses/holds (C14)
     def _gen_inject(self, rng: random.Random, tier: str) -> dict:
         feats = gen.pick_features(rng, never=["pause", "hold", "simulate", "alarm"], p=0.4)
